@@ -133,7 +133,7 @@ def run(ctx):
 
     # ---------------- B: scenarios
     scen = list(FIXED_SCENARIOS) + [WITNESS_SCENARIO]
-    for _ in range(ctx.n(500, 20000)):
+    for _ in range(ctx.n(1000, 20000)):
         scen.append(scenario(ctx.rng))
     inp = "\n".join(scen) + "\n"
     rc1, out1 = ctx.run([impl, "-exports", exports, "-mode", "scenario"], input=inp)
@@ -168,7 +168,7 @@ def run(ctx):
     cases.append(("witness:parsefsdir-no-package", [{"name": "a.txt", "src": "x"}], "parsefsdir", "det"))
     for cid, files in bases:
         cases.append((cid, files, "", "none"))
-    nmut = ctx.n(1300, 40000)
+    nmut = ctx.n(4000, 40000)
     for i in range(nmut):
         cid, files = bases[ctx.rng.below(len(bases))]
         files = [dict(f) for f in files]
